@@ -69,7 +69,9 @@ macro_rules! ser_hist {
     ($t:ty) => {
         impl Ser for $t {
             const NAME: &'static str = <$t as Hst>::NAME;
-            fn fresh(rng: &mut Rng) -> Self { if rng.unit() < 0.5 { <$t>::with_const_width(-3.0, 3.0) } else { let mut e: Vec<f64> = (0..=<$t as Hst>::LEN).map(|_| rng.normal() * 2.0).collect(); e.sort_by(|a, b| a.partial_cmp(b).unwrap()); <$t>::from_ranges(e).unwrap() } }
+            fn fresh(rng: &mut Rng) -> Self { if rng.unit() < 0.4 { <$t>::with_const_width(-3.0, 3.0) } else if rng.unit() < 0.4 {
+                // repeated edges (empty bins) are valid histograms too
+                let mut e: Vec<f64> = (0..=<$t as Hst>::LEN).map(|_| (rng.below(5) as f64 - 2.0) * 0.5).collect(); e.sort_by(|a, b| a.partial_cmp(b).unwrap()); <$t>::from_ranges(e).unwrap() } else { let mut e: Vec<f64> = (0..=<$t as Hst>::LEN).map(|_| rng.normal() * 2.0).collect(); e.sort_by(|a, b| a.partial_cmp(b).unwrap()); <$t>::from_ranges(e).unwrap() } }
             fn step(&mut self, x: f64, _w: f64) { let _ = self.add(x); }
             fn merge_with(&mut self, o: &Self) -> bool { if self.ranges_() == o.ranges_() { Merge::merge(self, o); true } else { false } }
             fn stats(&self) -> Vec<String> { let mut v: Vec<String> = self.variances_().iter().map(|x| fw(*x)).collect(); v.extend(self.bins_().iter().map(|b| b.to_string())); v }
@@ -197,8 +199,17 @@ average::impl_from_par_iterator!(Rec);
 fn par_case<E: Est + Send>(out: &mut Out, rng: &mut Rng, pool: &rayon::ThreadPool, data: &[f64], min_len: usize, max_len: usize, by_ref: bool, trees: &mut std::collections::BTreeSet<String>)
 where E: rayon::iter::FromParallelIterator<f64> + for<'a> rayon::iter::FromParallelIterator<&'a f64> {
     if !out.next_case() { return; }
+    // every third case collects a *filtered* parallel iterator: whole splits can then be empty, so the
+    // reduce tree contains empty accumulators on either side
+    let filtered = rng.below(3) == 0 && data.len() >= 4;
+    let (lo, hi) = if filtered { let mut s = data.to_vec(); s.sort_by(|a, b| a.partial_cmp(b).unwrap()); (s[s.len() / 4], s[s.len() / 2]) } else { (f64::NEG_INFINITY, f64::INFINITY) };
+    let sorted_in: Vec<f64> = if filtered { let mut s = data.to_vec(); s.sort_by(|a, b| a.partial_cmp(b).unwrap()); s } else { data.to_vec() };
+    let input: &[f64] = &sorted_in;
+    let keep = move |x: &f64| !filtered || (*x >= lo && *x <= hi);
+    let expect: Vec<f64> = input.iter().cloned().filter(|x| keep(x)).collect();
+    let data: &[f64] = &expect;
     // the tree rayon builds for this configuration (one of the possible ones)
-    let rec: Rec = pool.install(|| if by_ref { data.par_iter().with_min_len(min_len).with_max_len(max_len).collect() } else { data.par_iter().cloned().with_min_len(min_len).with_max_len(max_len).collect() });
+    let rec: Rec = pool.install(|| if by_ref { input.par_iter().with_min_len(min_len).with_max_len(max_len).filter(|x| keep(x)).collect() } else { input.par_iter().cloned().with_min_len(min_len).with_max_len(max_len).filter(|x| keep(x)).collect() });
     out.x(rec.tree.flatten().iter().map(|x| x.to_bits()).eq(data.iter().map(|x| x.to_bits())), || format!("rayon's fold/reduce tree does not preserve the order of the input (n={})", data.len()));
     out.x(!rec.add_after_merge, || "rayon added an observation to an already merged accumulator".to_string());
     trees.insert(rec.tree.shape());
@@ -211,16 +222,20 @@ where E: rayon::iter::FromParallelIterator<f64> + for<'a> rayon::iter::FromParal
     let seq: E = E::from_iter_val(data);
     let sacc = seq.accessors();
     for _ in 0..2 {
-        let par: E = pool.install(|| if by_ref { data.par_iter().with_min_len(min_len).with_max_len(max_len).collect() } else { data.par_iter().cloned().with_min_len(min_len).with_max_len(max_len).collect() });
+        let par: E = pool.install(|| if by_ref { input.par_iter().with_min_len(min_len).with_max_len(max_len).filter(|x| keep(x)).collect() } else { input.par_iter().cloned().with_min_len(min_len).with_max_len(max_len).filter(|x| keep(x)).collect() });
         let pacc = par.accessors();
         if !is_mm { oracle_mom(out, data, &pacc, &|_| true); }
         out.x(par.len() == seq.len(), || format!("{}: parallel len {:?} vs sequential {:?}", E::NAME, par.len(), seq.len()));
-        if E::NAME == "Min" || E::NAME == "Max" {
+        // a statistic that is a number sequentially must be a number in parallel (NaN only where documented)
+        for (p, q) in pacc.iter().zip(sacc.iter()) {
+            if let (Val::F(a), Val::F(b)) = (&p.val, &q.val) { out.x(a.is_nan() == b.is_nan(), || format!("{}.{}: parallel {:?} vs sequential {:?} (n={}, filtered={})", E::NAME, p.op, a, b, data.len(), filtered)); }
+        }
+        if is_mm {
             out.x(pacc[0].val.f() == sacc[0].val.f() || (pacc[0].val.f().is_nan() && sacc[0].val.f().is_nan()), || format!("{}: parallel {:?} vs sequential {:?}", E::NAME, pacc[0].val, sacc[0].val));
             out.o(if E::NAME == "Min" { "min" } else { "max" }, &[&fws(data), &fw(pacc[0].val.f())]);
         }
     }
-    out.note(&format!("{}:n<={}", E::NAME, crate::props_mom::bucket(data.len())));
+    out.note(&format!("{}:n<={}{}", E::NAME, crate::props_mom::bucket(data.len()), if filtered { ":filtered" } else { "" }));
 }
 
 pub fn c19(out: &mut Out, tier: &str, rng: &mut Rng) {
@@ -230,19 +245,19 @@ pub fn c19(out: &mut Out, tier: &str, rng: &mut Rng) {
     for &th in &threads {
         let pool = rayon::ThreadPoolBuilder::new().num_threads(th).build().unwrap();
         for &n in &sizes {
-            if n > 100_000 && th % 5 != 1 { continue; }
+            if n >= 100_000 && !(th == 4 || th == 16) { continue; }
             for rep in 0..2 {
+                if n >= 100_000 && rep == 1 && th != 16 { continue; }
                 let (d, _) = dataset_in(rng, n.max(1), 3e11, -20.0, 20.0, FAMILIES);
                 let d = &d[..n];
                 let (mn, mx) = match rep { 0 => (1, usize::MAX), _ => { let a = 1 + rng.below(n / 4 + 2); (a, a + rng.below(n + 1)) } };
                 let by_ref = rep == 0;
                 par_case::<average::Mean>(out, rng, &pool, d, mn, mx, by_ref, &mut trees);
                 par_case::<average::Variance>(out, rng, &pool, d, mn, mx, by_ref, &mut trees);
-                par_case::<average::Skewness>(out, rng, &pool, d, mn, mx, !by_ref, &mut trees);
                 par_case::<average::Kurtosis>(out, rng, &pool, d, mn, mx, by_ref, &mut trees);
                 par_case::<average::Min>(out, rng, &pool, d, mn, mx, by_ref, &mut trees);
                 par_case::<average::Max>(out, rng, &pool, d, mn, mx, !by_ref, &mut trees);
-                par_case::<average::Moments4>(out, rng, &pool, d, mn, mx, by_ref, &mut trees);
+                if n < 1_000_000 || th == 16 { par_case::<average::Skewness>(out, rng, &pool, d, mn, mx, !by_ref, &mut trees); par_case::<average::Moments4>(out, rng, &pool, d, mn, mx, by_ref, &mut trees); }
                 if n <= 20_000 { par_case::<M6>(out, rng, &pool, d, mn, mx, !by_ref, &mut trees); par_case::<M10>(out, rng, &pool, d, mn, mx, by_ref, &mut trees); }
             }
         }
